@@ -32,7 +32,7 @@ PREFIXES = [None, None, "", "my_func", "my_", "my", "MY", "Foo", "Foo.", "foo", 
 def n_runs(tier):
     if os.environ.get("VERIF_RUNS"):
         return int(os.environ["VERIF_RUNS"])
-    return 2000 if tier == "quick" else 160000
+    return 2000 if tier == "quick" else 60000
 
 
 def enum_configs(tier):
